@@ -32,7 +32,7 @@ ASSUMPTIONS = ['the reference outcome of a client alone is computed by the harne
 
 def cases(tier, seed):
     rnd = random.Random('c20/%d' % seed)
-    n = 180 if tier == 'quick' else 20000
+    n = 130 if tier == 'quick' else 20000
     for i in range(n):
         yield dict(n=rnd.choice([2, 2, 3, 4, 6, 8]), shared=rnd.random() < 0.5,
                    policy=rnd.choice(['uniform', 'rr', 'starve']), fine=rnd.random() < 0.5,
@@ -43,14 +43,21 @@ _base_cases = cases
 
 
 def cases(tier, seed):      # noqa: F811
-    for c in _base_cases(tier, seed):
-        yield c
     # one shared requesting entity that is reconfigured (add_scu) several times while many short
     # associations are requested from it; pre-emption concentrated in the configuration code
     rnd = random.Random('c20h/%d' % seed)
-    for i in range(80 if tier == 'quick' else 6000):
+    for i in range(70 if tier == 'quick' else 6000):
         yield dict(n=rnd.choice([3, 4, 6]), shared=True, policy='uniform', fine=True, hot=True,
                    disturb=0, seed=seed * 100069 + i)
+    # (the bulk comes after so that a wall-clock budget cut never drops the family above)
+    for c in _base_cases(tier, seed):
+        yield c
+    # the same family once more with instruction-level pre-emption.  Last on purpose: CPython
+    # arms instruction events interpreter-wide and for good, which slows every traced thread
+    # in that worker process from then on.
+    for i in range(40 if tier == 'quick' else 3000):
+        yield dict(n=rnd.choice([3, 4, 6]), shared=True, policy='uniform', fine=True, hot=True,
+                   sub=True, disturb=0, seed=seed * 100153 + i)
 
 
 def run_case(case):
@@ -69,9 +76,15 @@ def run_case(case):
     try:
         if case['fine']:
             if case.get('hot'):
-                pre = preempt.Preempter(sim, prob=0.5, funcs={
-                    'copy_context_def_list', 'update_context_def_list', '_build_context_def_list',
-                    'add_scu', '_new_msg_id'})
+                # line-level and (less often) instruction-level pre-emption: a thread may lose
+                # the processor between evaluating an expression and storing its result
+                pre = preempt.Preempter(
+                    sim, prob=0.5, opcode_prob=0.1 if case.get('sub') else 0.0,
+                    park_prob=0.25, park_max=0.1,
+                    funcs={'copy_context_def_list', 'update_context_def_list',
+                           '_build_context_def_list', 'add_scu', '_new_msg_id'},
+                    opcode_funcs={'copy_context_def_list', 'update_context_def_list',
+                                  '_new_msg_id'})
             else:
                 pre = preempt.Preempter(sim, prob=0.2)
             pre.install()
@@ -208,7 +221,15 @@ def run_case(case):
                         if case.get('hot'):
                             # start together with the reconfiguration of this round
                             sim.wait(lambda: gate['n'] > r_, 60.0, 'gate')
+                        # whatever add_scu() calls have RETURNED by now must be proposed
+                        need = cfg.get('done', 0) if case.get('hot') else 0
                         with ae.request_association(remote) as a0:
+                            have = set(str(x.sop_class) for x in a0.context_def_list.values())
+                            lacking = ['1.2.826.0.1.20.%d.%d' % (g, j) for j in range(need)
+                                       for g in ((78, 79) if case.get('sub') else (78,))
+                                       if '1.2.826.0.1.20.%d.%d' % (g, j) not in have]
+                            if lacking:
+                                res.setdefault('stale', []).append((r_, need, lacking))
                             sim.sleep(rnd.choice([0.0, 0.02, 0.1]))
                 with ae.request_association(remote) as assoc:
                     res['neg'] = assoc.max_pdu_length
@@ -291,6 +312,14 @@ def run_case(case):
                             return None
                         more.sop_classes = ['1.2.826.0.1.20.78.%d' % j]
                         shared.add_scu(more)
+                        if case.get('sub'):
+                            # two reconfigurations back to back: the second one starts while
+                            # whatever the first one invalidated is being rebuilt
+                            def more2(asce, ctx, *a):
+                                return None
+                            more2.sop_classes = ['1.2.826.0.1.20.79.%d' % j]
+                            shared.add_scu(more2)
+                        cfg['done'] = j + 1
                         sim.sleep(0.5)
                 cfg['configured'] = True
                 try:
@@ -383,7 +412,9 @@ def run_case(case):
                     break
         if cfg.get('configured'):
             if 'proposed' in cfg:
-                miss = [u for u in ('1.2.826.0.1.20.77.1', '1.2.826.0.1.20.77.2')
+                miss = [u for u in ['1.2.826.0.1.20.77.1', '1.2.826.0.1.20.77.2'] +
+                        ['1.2.826.0.1.20.%d.%d' % (g, j) for j in range(cfg.get('done', 0))
+                         for g in ((78, 79) if case.get('sub') else (78,))]
                         if u not in cfg['proposed']]
                 if miss:
                     v('association-after-reconfiguration-misses-classes',
@@ -391,6 +422,12 @@ def run_case(case):
                           len(cfg['proposed']), miss))
             elif 'exc' in cfg:
                 v('association-after-reconfiguration-failed', repr(cfg['exc']))
+        for c in sorted(results):
+            if results[c].get('stale'):
+                v('association-proposal-misses-class-configured-earlier',
+                  'client %d: (round, add_scu calls returned, missing) %r' % (
+                      c, results[c]['stale'][:3]))
+                break
         extra = [b for b in stored if not any(b in results[c]['sent'] for c in results)]
         if extra:
             v('handler-saw-data-nobody-sent', '%d data sets' % len(extra))
